@@ -248,7 +248,9 @@ class Gen:
                 vars_[t] = dict(shape=sp["shape"], maybe_none=will_flag, plain=(not will_flag and sp["shape"] is None), elem=False)
             prog["stmts"].append(st)
         # return
-        rvars = [v for v, i in vars_.items() if not (is_inner and i.get("param"))]
+        # (an inner DAG may hand one of its REQUIRED parameters straight through: a pass-through output - None when the nested
+        # call is deactivated, like every other output; defaulted parameters stay excluded, DESIGN 6)
+        rvars = [v for v, i in vars_.items() if not (is_inner and i.get("param") and (v in defaults or not f.get("pass_through", True)))]
 
         def rpick():
             if rvars and (is_inner or rng.random() < 0.85):
